@@ -64,10 +64,9 @@ def bloomLookup (H : HashFn) (bin : Bytes) (topic : Bytes) : Bool :=
   let cmp := bloom9 H topic
   (bloom &&& cmp) == cmp
 
-/-- `Bloom.TestBytes(test)` = `b.Test(new(big.Int).SetBytes(test))` = `BloomLookup(b, thatBigInt)`: the item is hashed as
-    `big.Int.Bytes()`, i.e. WITHOUT its leading zero bytes. No caller outside tests; the filter code uses `BloomLookup` on the
-    full address/topic bytes. -/
-def bloomTestBytes (H : HashFn) (bin test : Bytes) : Bool := bloomLookup H bin (beBytes (beNat test))
+/-- `Bloom.TestBytes(test)` = `BloomLookup(b, rawBytes(test))`: the bytes are looked up as given (since fix 7d17e77; before,
+    the argument went through `big.Int` and lost its leading zero bytes). -/
+def bloomTestBytes (H : HashFn) (bin test : Bytes) : Bool := bloomLookup H bin test
 
 /-! ## aqua/filters/filter.go : criteria, filterLogs, bloomFilter -/
 
